@@ -371,7 +371,12 @@ class Expander:
             self._emit_repo(out.rstrip(), it, it.repo_line)
             for c in sig_only_contract:
                 self._emit_contract(c, it)
-            self.emit("{ unimplemented!() }", {"kind": "import", "item": it.id, "unit": unit})
+            if arrow is not None and re.search(r"\bimpl\b", text[rs:re_]):
+                # `-> impl Trait`: rustc needs a body to infer the type; the real
+                # body is kept (external_body: Verus does not look inside)
+                self._emit_repo(text[body_open:], it, it.repo_line + text[:body_open].count("\n"))
+            else:
+                self.emit("{ unimplemented!() }", {"kind": "import", "item": it.id, "unit": unit})
         else:
             inserts.sort(key=lambda x: (x[0], x[1]))
             p = 0
